@@ -775,9 +775,21 @@ class DataAccessObject(HasGeneric[T]):
         :param state: The conversion state.
         :return: A dictionary of keyword arguments derived from the base DAO and mapping.
         """
-        base = self.__class__.__bases__[0]
+        # the closest ancestor DAO that uses an alternative mapping (not necessarily the direct base).
+        base = next(
+            (
+                ancestor
+                for ancestor in self.__class__.__mro__[1:]
+                if ancestor is not DataAccessObject
+                and isinstance(ancestor, type)
+                and issubclass(ancestor, DataAccessObject)
+                and hasattr(ancestor, "__mapper__")
+                and self.uses_alternative_mapping(ancestor)
+            ),
+            None,
+        )
         base_kwargs: Dict[str, Any] = {}
-        if self.uses_alternative_mapping(base):
+        if base is not None:
             parent_dao = base()
             parent_mapper = sqlalchemy.inspection.inspect(base)
             for column in parent_mapper.columns:
